@@ -863,6 +863,16 @@ CORR_SHAPES = {
 }
 
 
+# sparse probes for the space generator only: treatment counts around 170 (the largest n with a finite float n!) and beyond
+for _n, _ar in ((170, 1), (171, 1), (172, 2), (200, 2)):
+    _tr = [(f"t{i:03d}", 1.0 + (i % 2)) for i in range(_n)]
+    if _ar == 1:
+        _rows = [(f"s{i % 2}", (_tr[i],)) for i in range(_n)]
+    else:
+        _rows = [(f"s{i % 2}", (_tr[2 * i], _tr[2 * i + 1])) for i in range(_n // 2)]
+    CORR_SHAPES[f"Z{_n}a{_ar}"] = (_rows, None, None)
+
+
 def corr_screen(shape):
     rows, tm, sm = CORR_SHAPES[shape]
     kw = {}
